@@ -511,7 +511,8 @@ def gen_cases(rng, tier, n_modules):
 
 
 CORPUS = [
-    # regression inputs: the fixed findings required-optional-default (K) and nested-optional syntax error (N),
+    # regression inputs: the fixed findings required-optional-default (K), nested-optional syntax error (N) and
+    # import-name-clash (W, `import datetime` + datetime.datetime field: must generate and parse since 7abae24),
     # and the kernel-checked counterexample of Props/C16.lean (P/Q, inherited-additional-properties)
     {"suite": "stub", "apd": True, "dflt": True, "seeds": [1], "mod": {"items": [
         {"kind": "struct", "name": "K", "style": "annot", "bases": [{"b": "Structure"}],
